@@ -100,5 +100,50 @@ PROPS["C16"] = {
     "technique": "Lean 4 proof (well-founded recursion via fuel + pigeonhole; decision-tree case analysis) + exhaustive differential check of the real functions",
 }
 
+_MGR_COMPONENTS = ["MysyncModel/App/Manager.lean (stateManager control skeleton, approveFailover, approveSwitchover, request bookkeeping; sub-procedures abstract)",
+                   "MysyncModel/Generated/SwitchHelper.lean (regenerated quorum helpers)", "MysyncModel/NodeState.lean (HA counters)"]
+_MGR_TRUSTED = ["T4 fake MySQL statement semantics; interface-level fake DCS (create-if-absent, set, delete, children)",
+                "the observer that maps the event log of an iteration to the model's step vocabulary (harness/app/manager_test.go mgrObserve); log-only steps are not compared",
+                "T9 manager_switchover off, external replication off, dev_mode off", "E8 one clock (virtual time of the synctest bubble)"]
+PROPS["C05"] = {
+    "lean": ["MysyncProofs.C05"],
+    "go": [("internal/app", "^TestVerifC05$")],
+    "level": "proof",
+    "components": _MGR_COMPONENTS,
+    "trusted": _MGR_TRUSTED,
+    "rule": "random multi-tick histories (1-3 real stateManager iterations separated by 0/5/29/30/31 s of virtual time) over: 2-4 nodes, semi-sync on/off, w 1-2, failover on/off, delay 0/30 s, resetup on/off, master health record {ok, missing, ping failed, read-only fs, crash recovered} per tick, master reachable or not per tick, replicas {running, stopped, dead}, active list {full, master only, partial, absent}, maintenance {none, light acked/unacked, unreadable +- marker file}, pending request {none, failover-type, auto, unreadable}, last switch {none, auto 10 min / 2 h / exactly cooldown ago, manual, in progress, unreadable}, lock held/lost/disconnected, lost reply of the create, unregistered recorded master. distinct = distinct tick record; non-trivial = the iteration took at least one observable step",
+    "assumptions": ["E8: cooldown/delay time stamps come from one clock"],
+    "min_lines": 2000,
+    "level_text": "Theorems over the model of one manager iteration for ALL inputs: a failover request is filed only if every gate of the property is open (GatesOpen is written from the property text), it is the last step, the failure clock keeps the first bad evaluation of an unbroken bad run (history theorem by list induction), a suspicious master is inert. Correspondence: the REAL stateManager over multi-tick histories with virtual time hitting the delay/cooldown boundaries exactly; the gates are also evaluated as a monitor on every real filing.",
+    "level_note": "Trusted: Lean kernel; fake MySQL/DCS; the step observer; sub-procedures of the iteration are abstract steps here (modelled under C04/C01/C10).",
+    "technique": "Lean 4 proof over a decision-tree model of the manager iteration + differential check of the real stateManager with virtual time",
+}
+PROPS["C06"] = {
+    "lean": ["MysyncProofs.C06"],
+    "go": [("internal/app", "^TestVerifC06$")],
+    "level": "proof",
+    "components": _MGR_COMPONENTS + ["MysyncModel/App/SwitchLifecycle.lean (switch / last_switch / last_rejected_switch as a state machine: file, abort, manager tick)"],
+    "trusted": _MGR_TRUSTED,
+    "rule": "random multi-tick histories of the real stateManager with a pending request {manual switchover to a host, operator-forced failover, automatic failover} x age {now, 30 min, 31 min, zero initiated_at} x run_count 0-2 x max attempts {0,1,2,60} x real performSwitchover outcome {success, target refuses read-only, operator abort in the middle} x failing 'set switch' x light maintenance; every write/delete of the three keys is observed. distinct = distinct tick; non-trivial = an observable step",
+    "assumptions": ["coordination calls of the manager succeed (their failure is C07's subject), except the injected failing StartSwitchover write"],
+    "min_lines": 1500,
+    "level_text": "Theorems over the request state machine for all inputs: no overwrite (create-if-absent), time-out bound, attempt bound, approved once, each failure counted once, exactly one terminal outcome per iteration, only the lock holder touches a request, success needs a successful procedure, planned switchovers leave 'switch' within max-run_count+1 iterations. The time-out clause was FALSE on the pinned tree (FailSwitchover re-queued the request for ever) and was repaired by a fix: commit (known_findings.json). Monitors on the real code: pending past time-out / attempt limit, re-judged retry, miscounted failure, filing over a pending request, 'succeeded' without the recorded master being the promoted writable node.",
+    "level_note": "Trusted: Lean kernel; fake MySQL/DCS; step observer; performSwitchover is abstract in this model (its outcome is an input), its own guarantees are C01.",
+    "technique": "Lean 4 proof over a state-machine model of the request keys + differential check of the real stateManager/performSwitchover bookkeeping",
+}
+PROPS["C09"] = {
+    "lean": ["MysyncProofs.C09"],
+    "go": [("internal/app", "^TestVerifC09")],
+    "level": "proof",
+    "components": _MGR_COMPONENTS + ["MysyncModel/App/Maintenance.lean (stateCandidate, stateMaintenance, stateFirstRun, tryLeaveMaintenance, leaveMaintenance, enterMaintenance, getMasterHost)"],
+    "trusted": _MGR_TRUSTED,
+    "rule": "manager ticks under every maintenance record kind {light acked/unacked/should-leave, full acked/unacked, unreadable +- marker file} x pending requests x failing acknowledgement; handler runs (stateMaintenance / stateCandidate / stateFirstRun) after operator moves {none, master moved by hand, two masters, no alive master, dead replica, everybody a replica} x record kinds x lock x marker file x coordination outage. distinct = distinct record; non-trivial = an action was taken",
+    "assumptions": ["hypothesis Observed: the cluster-level 'no process acts' statement is per daemon that has observed the acknowledged record; a daemon that loses the coordination service before observing it may still fence its LOCAL node (C08) - DESIGN §8-F"],
+    "min_lines": 3000,
+    "level_text": "Per-daemon theorems for all inputs: a manager reading an acknowledged full-maintenance record (or an unreadable one with the marker file) does nothing and pauses; entering only acknowledges; the paused handler is inert until a leave request; restart without coordination service stays paused; candidates follow only after acknowledgement and never for light mode; light mode never files a failover, parks failover-type requests, keeps planned switchovers and repairs; leaving succeeds iff exactly one alive master (recorded master := it, non-empty rebuilt list), otherwise mode kept, several masters raise the marker. Monitors on the real handlers: statements / master / active_nodes writes while paused, leave conditions against ground truth.",
+    "level_note": "Trusted: Lean kernel; fakes; observer. The repair pass and list rebuild inside leaveMaintenance are abstract steps here (C10/C04).",
+    "technique": "Lean 4 proof over decision models of the handlers + differential check of the real handlers with operator moves",
+}
+
 _todo = "machinery for this property is not built yet in this round; planned per DESIGN.md §7/§10 (no claim is made until its check exists)"
 NOT_APPLICABLE = {("C%02d" % i): _todo for i in range(1, 21)}
